@@ -288,6 +288,9 @@ func (d *Driver) StartReader() {
 			if err != nil {
 				es = err.Error()
 			}
+			if err != nil && mqtt.IsConnectionRefused(err) {
+				es = "[refused] " + es // classified here, so that no oracle reads the wording
+			}
 			if errors.As(err, &big) {
 				r.Big = true
 				r.BigSize = big.Size
